@@ -486,6 +486,9 @@ pub fn remove_stream<F: Fl, const UNSUB: bool, const LAST: bool, const OUTER: us
 //   KIND 3: one stream with two handles rx0, rx2.  actor 1 does rx0.add_stream() -> rx1 (s1),
 //           actor 2 does rx2.add_stream() -> rx3 (s2): two additions racing; afterwards all three
 //           streams limit the sender and get every value.
+//   KIND 4: streams s0 (two handles: rx0 and its clone rx2) and s1 (rx1).  actor 1 drops rx0,
+//           actor 2 drops rx2: the last two handles of a stream leave at the same time; exactly
+//           one of them must remove the stream, afterwards only s1 limits the sender.
 //   actor 0: tx0 sends 1
 
 pub struct Rem2<F, const KIND: u8>(PhantomData<F>);
@@ -498,6 +501,8 @@ impl<F: Fl, const KIND: u8> Prog for Rem2<F, KIND> {
     fn step(a: usize, _k: usize) {
         match (KIND, a) {
             (_, 0) => op_send::<F>(0, 0, 1),
+            (4, 1) => op_drop_rx::<F>(4, 0),
+            (4, _) => op_drop_rx::<F>(8, 2),
             (3, 1) => op_add_stream::<F>(4, 0, 1, 1),
             (3, _) => op_add_stream::<F>(8, 2, 3, 2),
             (_, 1) => op_drop_rx::<F>(4, 0),
@@ -518,6 +523,9 @@ pub fn remove_race<F: Fl, const KIND: u8, const OUTER: usize>(c: &LifeCfg) {
     } else {
         w.rx[1] = Some(F::add_stream(w.rx[0].as_ref().unwrap()));
         w.rx_stream[1] = 1;
+    }
+    if KIND == 4 {
+        w.rx[2] = Some(F::clone_rx(w.rx[0].as_ref().unwrap()));
     }
     if KIND == 1 {
         w.rx[2] = Some(F::add_stream(w.rx[0].as_ref().unwrap()));
@@ -551,7 +559,16 @@ pub fn remove_race<F: Fl, const KIND: u8, const OUTER: usize>(c: &LifeCfg) {
     }
     run_concurrent::<Rem2<F, KIND>, OUTER>();
     kani::cover!(sched::st().injected > 0, "an operation ran at a preemption point");
-    if KIND == 3 {
+    if KIND == 4 {
+        finish::<F>(&Finish {
+            n: c.n,
+            nstreams: 2,
+            full: 0b10,
+            drain_rx: [0, 1, 0],
+            probe_tx: 0,
+            probe_id0: 9,
+        });
+    } else if KIND == 3 {
         finish::<F>(&Finish {
             n: c.n,
             nstreams: 3,
@@ -782,6 +799,7 @@ life!(c11_bc_unsub_nonlast_o1, hk_c11_bc_unsub_nonlast_o1, Runner<Rem<BcB, true>
 life!(c11_bc_droprace_o1, hk_c11_bc_droprace_o1, Runner<Rem2<BcB, 1>, 1>, remove_race::<BcB, 1, 1>(&LifeCfg { pre_recv: 1, ..LQ }));
 life!(c11_bc_addrace_o1, hk_c11_bc_addrace_o1, Runner<Rem2<BcB, 2>, 1>, remove_race::<BcB, 2, 1>(&LifeCfg { pre_recv: 1, ..LQ }));
 life!(c11_bc_addrace_o2, hk_c11_bc_addrace_o2, Runner<Rem2<BcB, 2>, 2>, remove_race::<BcB, 2, 2>(&LifeCfg { pre_recv: 1, ..LQ }));
+life!(c11_bc_bothhandles_o1, hk_c11_bc_bothhandles_o1, Runner<Rem2<BcB, 4>, 1>, remove_race::<BcB, 4, 1>(&LifeCfg { pre_recv: 1, ..LQ }));
 life!(c10_bc_addadd_o1, hk_c10_bc_addadd_o1, Runner<Rem2<BcB, 3>, 1>, remove_race::<BcB, 3, 1>(&LifeCfg { pre_recv: 1, ..LQ }));
 // C12
 life!(c12_mp_senders_o0, hk_c12_mp_senders_o0, Runner<Churn<MpB, 1>, 0>, churn::<MpB, 1, 0>(&LifeCfg { pre_send: 1, pre_recv: 1, ..LQ }));
